@@ -97,6 +97,10 @@ func engineCacheHist(ctx *Ctx) {
 	nHist := ctx.N(960, 38000)
 	for h := 0; h < nHist; h++ {
 		sp := vlib.DBSpec{N: []int{8, 20, 45, 90}[h%4], TieHeavy: h%3 == 0, Platforms: 2, Pipelines: true, PseudoCmd: h%2 == 0}
+		bigAnswers := ctx.G(h)%8 == 6 // databases and limits large enough for answers of hundreds of results
+		if bigAnswers {
+			sp.N = 150 + r.Intn(500)
+		}
 		mk := func() []vlib.Cmd { return vlib.MustLoad(vlib.GenCommands(r, sp)).Commands }
 		var db *database.Database
 		dbName := fmt.Sprintf("gen-%d-%d", ctx.Shard, h)
@@ -120,7 +124,34 @@ func engineCacheHist(ctx *Ctx) {
 		for i := 0; i < 4+r.Intn(4); i++ {
 			pool = append(pool, vlib.GenQuery(r, words, 1+r.Intn(4), []int{0, 0, 1, 2}[r.Intn(4)]))
 		}
+		if ctx.G(h)%4 == 1 {
+			// long requests that differ only in a small part: the same text up to a byte offset near a power of two / the 1000-byte
+			// query bound, then different words (and the mirror image: different words first, then the same long tail)
+			L := []int{40, 100, 250, 256, 500, 512, 990, 1000, 1024, 2000, 4096}[r.Intn(11)]
+			var fill strings.Builder
+			for fill.Len() < L {
+				if r.Intn(3) == 0 {
+					fill.WriteString(words[r.Intn(len(words))])
+				} else {
+					fill.WriteString([]string{"a", "b", "x", "the", "of", "to", "q"}[r.Intn(7)])
+				}
+				fill.WriteByte(' ')
+			}
+			f := fill.String()[:L]
+			w1, w2 := words[r.Intn(len(words))], words[r.Intn(len(words))]
+			if r.Intn(2) == 0 {
+				pool = append(pool, f+" "+w1, f+" "+w2, f+" "+w1+" "+w2)
+			} else {
+				pool = append(pool, w1+" "+f, w2+" "+f)
+			}
+			ctx.R.Path("long-twin-queries", 1)
+		}
 		cur := vlib.RandomOptions(r, len(db.Commands), words)
+		if bigAnswers {
+			cur.Limit = []int{101, 128, 150, 500, len(db.Commands), len(db.Commands) + 1}[r.Intn(6)]
+			cur.AllPlatforms = true
+			pool = append(pool, vlib.GenQuery(r, words, 8+r.Intn(8), 0), vlib.GenQuery(r, words, 12, 0))
+		}
 		cur.Platforms, cur.NoCrossPlatform = nil, false
 		if cur.Limit <= 0 {
 			cur.Limit = 5
@@ -149,7 +180,11 @@ func engineCacheHist(ctx *Ctx) {
 					}
 					ctx.R.Path("blank-padded-queries", 1)
 				}
-				switch x := r.Intn(10); {
+				x := r.Intn(10)
+				if bigAnswers && x < 4 {
+					x = 9 // fewer option changes: more repeats of requests with long answers
+				}
+				switch {
 				case x < 5:
 					cur, lastDelta = c05Mutate(r, cur, len(db.Commands), words)
 				case x == 5 && len(cur.ContextBoosts) > 0: // the caller edits its own boost map in place between two calls
@@ -202,6 +237,12 @@ func engineCacheHist(ctx *Ctx) {
 					verdict, why := vlib.CompareToRef(refs, stable, cand, vlib.LimitInForce(o.Limit))
 					if hit {
 						ctx.R.Path("hit-steps", 1)
+						if len(refs[0]) > 100 {
+							ctx.R.Path("hits-with-over-100-results", 1)
+						}
+						if len(q) > 1000 {
+							ctx.R.Path("hits-with-query-over-1000-bytes", 1)
+						}
 					} else {
 						ctx.R.Path("miss-steps", 1)
 					}
